@@ -537,24 +537,32 @@ def get_fn_arity(f):
 
     NOTE: TODO: it maybe easier / better to do this at parse time vs late.
     """
-    if isinstance(f, KGFn) and isinstance(f.a, KGSym) and not in_map(f.a, reserved_fn_symbols):
-       # only holes and parameter symbols count; other arguments (array literals, conditionals)
-       # need not be hashable
-       args = f.args if isinstance(f.args, list) else [f.args]
-       return len(set(x for x in args if x is None or (isinstance(x, KGSym) and x in reserved_fn_symbols)))
-    def _e(f, level=0):
+    def _params(f):
+        # the parameter symbols referenced anywhere in the expression: the operand of a
+        # monadic operator ({#x}: args is the bare symbol, not a list), the verb and the operands
+        # of an adverb ({x'y}), and nested calls ({foo(x+1)}, {mul(x;mul(y;z))}) are all looked into
+        if isinstance(f, KGSym):
+            return set([f]) if f in reserved_fn_symbols else set()
         if isinstance(f, KGFn):
-            x = _e(f.a, level=1)
-            if isinstance(f.args, list):
-                for q in f.args:
-                    x.update(_e(q, level=1))
-        elif isinstance(f, list):
+            # an operator application, an adverb chain or a call of a named / parameter function;
+            # anything else is a nested function literal, whose body has its own x, y, z
+            # ({5{(,x),y}/[1]} is a nilad) - only the arguments applied to it belong to this scope
+            x = _params(f.a) if (f.is_adverb_chain() or isinstance(f.a, KGSym)) else set()
+            for q in (f.args if isinstance(f.args, list) else [f.args]):
+                x.update(_params(q))
+            return x
+        if isinstance(f, KGAdverb):
+            return _params(f.a)
+        if isinstance(f, list):
             x = set()
             for q in f:
-                x.update(_e(q, level=1))
-        elif isinstance(f, KGSym):
-            x = set([f]) if f in reserved_fn_symbols else set()
-        else:
-            x = set()
-        return x if level else len(x)
-    return _e(f)
+                x.update(_params(q))
+            return x
+        return set()
+    if isinstance(f, KGFn) and isinstance(f.a, KGSym) and not in_map(f.a, reserved_fn_symbols):
+        # a call of a named function: its holes count as well (all of them as one, as before)
+        x = set()
+        for q in (f.args if isinstance(f.args, list) else [f.args]):
+            x.update(set([None]) if q is None else _params(q))
+        return len(x)
+    return len(_params(f))
